@@ -40,6 +40,8 @@ HOSTILE += ["kind < 5 and exit()", "kind < 5 and quit(3)", "kind < len(__import_
 HOSTILE += ["0...0x" + "f" * 4000, "-0x" + "f" * 4000 + "...0"]
 # a sound first token followed by something the tokenizer or the parser rejects right there
 HOSTILE += ["%s %s" % (head, tail) for head in ("Text", "5", '"a"') for tail in ("'abc", '"abc', "0b2", "\\", "1_", "0x", "$", "?", "(", "...")]
+# values that are too long for a fixed field only by the blanks around them
+HOSTILE += ["1" + " " * 12, " " * 12 + "a", " " * 30, "K" + " " * 3]
 FIELDS = {
     "delimited": [["id", "12", "", "1...5", "Integer", "0...99999"], ["name", "Bob", "X", "...10", "Text", ""], ["kind", "a", "", "", "Choice", '"a","b"'],
                   ["born", "2000-01-31", "X", "10", "DateTime", "YYYY-MM-DD"], ["amount", "1.50", "", "", "Decimal", "0...99.99"], ["code", "abc", "", "", "Pattern", "a*"],
@@ -88,6 +90,7 @@ def data_source(fmt, table, name="data"):
     path = os.path.join(readermachine.tmpdir(), "%s_%d.xlsx" % (name, os.getpid()))
     workbook = harness.new_workbook(path)
     sheet = workbook.add_worksheet()
+    raw_values = []
     for y, row in enumerate(table):
         for x, cell in enumerate(row):
             if isinstance(cell, (list, tuple)):
@@ -101,11 +104,29 @@ def data_source(fmt, table, name="data"):
                     sheet.write_boolean(y, x, value)
                 elif kind == "error":
                     sheet.write_formula(y, x, "=1/0" if value == "#DIV/0!" else "=NA()", None, value)
+                elif kind in ("raw-date", "raw-number"):
+                    # a number cell whose stored text no spreadsheet application writes (NaN, Infinity, 1e400): put in place once the workbook is complete
+                    sheet.write_number(y, x, 4242.5, workbook.add_format({"num_format": "yyyy-mm-dd"}) if kind == "raw-date" else None)
+                    raw_values.append(value)
                 else:
                     raise ValueError(kind)
             elif cell != "":
                 sheet.write_string(y, x, cell)
     workbook.close()
+    if raw_values:
+        import zipfile
+
+        patched = io.BytesIO()
+        with zipfile.ZipFile(path) as archive, zipfile.ZipFile(patched, "w", zipfile.ZIP_DEFLATED) as target:
+            for item in archive.infolist():
+                content = archive.read(item.filename)
+                if item.filename == "xl/worksheets/sheet1.xml":
+                    for value in raw_values:
+                        assert b"<v>4242.5</v>" in content
+                        content = content.replace(b"<v>4242.5</v>", b"<v>" + value.encode("utf-8") + b"</v>", 1)
+                target.writestr(item, content)
+        with open(path, "wb") as stream:
+            stream.write(patched.getvalue())
     return path
 
 
@@ -113,6 +134,9 @@ def data_source(fmt, table, name="data"):
 NATIVE = [["native", "date", v] for v in (-1, -0.5, 0, 0.25, 1, 1.5, 59, 60, 60.5, 61, 2958465, 2958466, 1e15)] + \
          [["native", "time", v] for v in (-0.25, 0.999999, 1.25, 60.75)] + [["native", "duration", v] for v in (1.5, 59.9, 100.25)] + \
          [["native", "number", v] for v in (1e308, -1e308, 5e-324, 2.0**63, 0.1)] + [["native", "bool", True], ["native", "bool", False], ["native", "error", "#DIV/0!"], ["native", "error", "#N/A"]]
+NATIVE += [["native", kind, v] for kind in ("raw-date", "raw-number") for v in ("NaN", "Infinity", "-Infinity", "1e400", "-1e400", "1e-400", "0x10", "1_0", "１２")]
+# names with a no-break space next to them (Python's tokenizer takes it for part of the name)
+HOSTILE += ["\xa0id", "id,\xa0name", "kind\xa0< 3", "id\xa0"]
 
 
 def classify(error, errors):
